@@ -51,7 +51,13 @@ func newNameReferenceTransformer(
 func (t *nameReferenceTransformer) Transform(m resmap.ResMap) error {
 	fMap := t.determineFilters(m.Resources())
 	debug(fMap)
-	for r, fList := range fMap {
+	// visit the referrers in resource order, not in map order: when more
+	// than one of them fails, the error reported must not vary from run to run
+	for _, r := range m.Resources() {
+		fList, ok := fMap[r]
+		if !ok {
+			continue
+		}
 		c, err := m.SubsetThatCouldBeReferencedByResource(r)
 		if err != nil {
 			return err
